@@ -142,6 +142,9 @@ class Module:
         if name is not None and val.name is not None:  # Both set, fail.
             msg = f"{val} with conflicting names {name} and {val.name} cannot be added to Module {self.name}"
             raise RuntimeError(msg)
+        if (name or val.name) in _banned:  # Protected names, just like for `setattr`
+            msg = f"Error attempting to over-write protected attribute {name or val.name} of Module {self}"
+            raise RuntimeError(msg)
         if name is not None:  # One or the other set - great.
             val.name = name
 
